@@ -17,6 +17,7 @@ import CBV.Lemmas.C11Loft
 import CBV.Lemmas.C11Distinct
 import CBV.Lemmas.C11Oval
 import CBV.Lemmas.C11Rev
+import CBV.Lemmas.C11RevDisk
 import Mathlib.Analysis.Real.Sqrt
 import Mathlib.Tactic.NormNum
 import Mathlib.Tactic.Ring
@@ -896,6 +897,40 @@ example : ∀ H ∈ revolveOf [[0, 1, 2, 3]]
   · intro p hp; simp only [List.mem_cons, List.not_mem_nil, or_false] at hp; rcases hp with rfl | rfl | rfl | rfl <;> rfl
   · intro q hq; simp only [List.mem_cons, List.not_mem_nil, or_false] at hq; subst hq
     simp [quadOf, convexCCW, aboveAxis, cross2K]
+
+/-- **`RevolvedShape` of the four fan disk sketches** (`OneCoreDisk`, `QuarterDisk`, `HalfDisk`, `FourCoreDisk`):
+    for every axis in the sketch plane (point `o`, unit direction `k`, unit sketch normal `N ⟂ k`), every centre at
+    height `y0 > 0` over the axis (`(x0, y0)` in the frame of the axis), every radius vector `α k + β (N × k)`
+    shorter than `y0` (the axis passes outside the disk), ratios satisfying `DiskOK`, `2h² ≤ 1`, and every sweep
+    with positive sine (0 < angle < π): every block between the sketch and its turned copy has eight positive
+    corner Jacobians.  (The fan frame is mapped to the axis frame by a plane similarity, `frame_in_axis_frame`,
+    which keeps the quads convex and counter-clockwise, `convexCCW_sim`; heights by Cauchy–Schwarz, `sim_height_pos`.) -/
+theorem T_C11_revolved_disk_rightHanded {K : Type} [Field K] [LinearOrder K] [IsStrictOrderedRing K]
+    (cl : DiskCls) (o k N : P3 K) (x0 y0 α β h kk dg cs sn : K)
+    (hk : P3.nsq k = 1) (hN : P3.nsq N = 1) (hNk : P3.dot N k = 0) (hsn : 0 < sn) (hy : 0 < y0)
+    (hs : 0 < α * α + β * β) (hr : α * α + β * β < y0 * y0) (hok : DiskOK cl h kk dg) (hh2 : 2 * (h * h) ≤ 1) :
+    ∀ H ∈ revolvedHexes (sketchQuads cl.name) cl (frame o k N ⟨x0, y0, 0⟩)
+        (P3.add (frame o k N ⟨x0, y0, 0⟩) (P3.add (P3.smul α k) (P3.smul β (P3.cross N k)))) N h kk dg cs sn k o, H.RH :=
+  revolved_disk_RH cl o k N x0 y0 α β h kk dg cs sn hk hN hNk hsn hy hs hr hok hh2
+
+/-- non-vacuity: a `FourCoreDisk` of radius √2 with its centre 3 above the x axis, turned by (cos, sin) = (3/5, 4/5) -/
+example : ∀ H ∈ revolvedHexes (sketchQuads "FourCoreDisk") .fourCore (frame (⟨0, 0, 0⟩ : P3 Rat) ⟨1, 0, 0⟩ ⟨0, 0, 1⟩ ⟨1, 3, 0⟩)
+    (P3.add (frame ⟨0, 0, 0⟩ ⟨1, 0, 0⟩ ⟨0, 0, 1⟩ ⟨1, 3, 0⟩)
+      (P3.add (P3.smul 1 ⟨1, 0, 0⟩) (P3.smul 1 (P3.cross ⟨0, 0, 1⟩ ⟨1, 0, 0⟩)))) ⟨0, 0, 1⟩ (7 / 10) (4 / 5) (9 / 10)
+    (3 / 5) (4 / 5) ⟨1, 0, 0⟩ ⟨0, 0, 0⟩, H.RH :=
+  T_C11_revolved_disk_rightHanded .fourCore _ _ _ 1 3 1 1 _ _ _ _ _ (by norm_num [P3.nsq, P3.dot])
+    (by norm_num [P3.nsq, P3.dot]) (by norm_num [P3.dot]) (by norm_num) (by norm_num) (by norm_num) (by norm_num)
+    (by unfold DiskOK; norm_num) (by norm_num)
+
+/-- over ℝ with the constants of the source and `h = √2/2`: no condition on the ratios is left -/
+theorem T_C11_revolved_disk_real (cl : DiskCls) (o k N : P3 ℝ) (x0 y0 α β cs sn : ℝ)
+    (hk : P3.nsq k = 1) (hN : P3.nsq N = 1) (hNk : P3.dot N k = 0) (hsn : 0 < sn) (hy : 0 < y0)
+    (hs : 0 < α * α + β * β) (hr : α * α + β * β < y0 * y0) :
+    ∀ H ∈ revolvedHexes (sketchQuads cl.name) cl (frame o k N ⟨x0, y0, 0⟩)
+        (P3.add (frame o k N ⟨x0, y0, 0⟩) (P3.add (P3.smul α k) (P3.smul β (P3.cross N k)))) N (Real.sqrt 2 / 2)
+        coreRatioR diagRatioR cs sn k o, H.RH :=
+  T_C11_revolved_disk_rightHanded cl o k N x0 y0 α β _ _ _ cs sn hk hN hNk hsn hy hs hr (T_C11_disk_constants cl)
+    (le_of_eq T_C11_half_sqrt_two)
 
 /-! ## Part G — joints: one construction for every branch count -/
 
